@@ -1134,5 +1134,245 @@ theorem doAction_safe {st : St} {held : List WinTree.Id} (h : AInv st held) {a :
   · simp only [hal, Bool.not_false, if_true]
     exact ⟨⟨h.tree, h.drag, h.size, h.rc, h.leaf, h.held, h.root⟩, rfl⟩
 
+/-- What a step of the dispatcher must deliver. -/
+def Good (held : List WinTree.Id) (st : St) : Prop := AInv st held ∧ TableOK st.binds
+
+theorem doActions_safe : ∀ (as : List Action) (st : St) (held : List WinTree.Id), Good held st → (∀ a ∈ as, ActOK a) →
+    SafeR (doActions st as) (Good held) := by
+  intro as
+  induction as with
+  | nil => intro st held h _; exact h
+  | cons a rest ih =>
+    intro st held h ha
+    simp only [doActions]
+    apply SafeR.bind (doAction_safe h.1 (ha a (List.mem_cons_self ..)))
+    intro st1 ⟨h1, hb⟩
+    exact ih st1 held ⟨h1, by rw [hb]; exact h.2⟩ (fun a' ha' => ha a' (List.mem_cons_of_mem _ ha'))
+
+theorem runBindings_safe (kind : Kind) (win : WinTree.Id) (ev : Ev) : ∀ (idxs : List Nat) (st : St) (held : List WinTree.Id),
+    Good held st → SafeR (runBindings st kind win ev idxs) (fun p => Good held p.1) := by
+  intro idxs
+  induction idxs with
+  | nil => intro st held h; exact h
+  | cons bi rest ih =>
+    intro st held h
+    unfold runBindings
+    cases hb : st.binds[bi]? with
+    | none => simp only []; exact ih st held h
+    | some b =>
+      simp only []
+      have g1 : Good held (({ st with binds := st.binds.setIfInBounds bi { b with count := b.count + 1 } } : St).say
+          (.call kind win b.idx (entryIndex b) b.entry.ret ev)) :=
+        ⟨⟨h.1.tree, h.1.drag, h.1.size, h.1.rc, h.1.leaf, h.1.held, h.1.root⟩, h.2.bump hb _⟩
+      apply SafeR.bind (doActions_safe _ _ held g1 (h.2.entry hb))
+      intro st1 h1
+      split
+      · exact h1
+      · exact ih st1 held h1
+
+theorem runHandlers_safe (kind : Kind) (win : WinTree.Id) (ev : Ev) (st : St) (held : List WinTree.Id) (h : Good held st) :
+    SafeR (runHandlers st kind win ev) (fun p => Good held p.1) := by
+  unfold runHandlers
+  exact runBindings_safe kind win ev _ _ held
+    ⟨⟨h.1.tree, h.1.drag, h.1.size, h.1.rc, h.1.leaf, h.1.held, h.1.root⟩, h.2⟩
+
+theorem isShown_safe {t : Tree} (hi : TInv t) : ∀ (f : Nat) (i : WinTree.Id), Alive t i →
+    SafeR (isShown t f i) (fun _ => True) := by
+  intro f
+  induction f with
+  | zero => intro i _; exact Or.inl rfl
+  | succ f ih =>
+    intro i ha
+    obtain ⟨w, hg, hw, hf⟩ := ha.get
+    unfold isShown
+    simp only [hg, res_bind_ok]
+    split
+    · trivial
+    · cases hp : w.parent with
+      | none => trivial
+      | some p =>
+        obtain ⟨pw, hpw, hpf, _⟩ := hi.parent i p w hw hf hp
+        exact ih p ⟨pw, hpw, hpf⟩
+
+theorem refAll_safe : ∀ (cs : List WinTree.Id) (st : St) (held : List WinTree.Id), Good held st →
+    (∀ c ∈ cs, Alive st.tree c) → SafeR (refAll st cs) (Good (cs ++ held)) := by
+  intro cs
+  induction cs with
+  | nil => intro st held h _; exact h
+  | cons c rest ih =>
+    intro st held h hal
+    simp only [refAll]
+    obtain ⟨st1, e1, h1, hb⟩ := h.1.ref (hal c (List.mem_cons_self ..))
+    rw [e1]
+    simp only [res_bind_ok]
+    have hal1 : ∀ c' ∈ rest, Alive st1.tree c' := by
+      intro c' hc'
+      have := hal c' (List.mem_cons_of_mem _ hc')
+      -- taking a reference keeps everybody alive
+      obtain ⟨w, hg, e⟩ := refWin_eq_ok e1
+      rw [e]
+      exact alive_set (w' := { w with refcount := w.refcount + 1 }) (get_eq_ok.1 hg).1 rfl this
+    refine (ih st1 (c :: held) ⟨h1, by rw [hb]; exact h.2⟩ hal1).mono ?_
+    intro st2 h2
+    refine ⟨h2.1.perm ?_, h2.2⟩
+    simp only [List.cons_append]
+    exact List.perm_middle
+
+theorem unrefAll_safe : ∀ (cs : List WinTree.Id) (st : St) (held : List WinTree.Id), Good (cs ++ held) st →
+    SafeR (unrefAll st cs) (Good held) := by
+  intro cs
+  induction cs with
+  | nil => intro st held h; exact h
+  | cons c rest ih =>
+    intro st held h
+    simp only [unrefAll]
+    have h' : AInv st (c :: (rest ++ held)) := h.1
+    apply SafeR.bind h'.release
+    intro st1 ⟨h1, hb⟩
+    exact ih st1 held ⟨h1, by rw [hb]; exact h.2⟩
+
+/-! ### `_handle_key` under mutating handlers -/
+
+def KeyRecSafe (rec : KeyRec) : Prop :=
+  ∀ (st : St) (c : WinTree.Id) (ev : Ev) (held : List WinTree.Id), Good held st → Alive st.tree c →
+    SafeO (rec st c ev) (fun p => Good held p.1)
+
+theorem firstClaim_safe {a : Out (St × Bool)} {k : St → Out (St × Bool)} {Q : St → Prop}
+    (ha : SafeO a (fun p => Q p.1)) (hk : ∀ st, Q st → SafeO (k st) (fun p => Q p.1)) :
+    SafeO (firstClaim a k) (fun p => Q p.1) := by
+  unfold firstClaim
+  apply SafeO.bind ha
+  intro ⟨st1, d1⟩ h1
+  cases d1 with
+  | true => exact h1
+  | false => exact hk st1 h1
+
+theorem keySteal_safe {rec : KeyRec} (hrec : KeyRecSafe rec) {st : St} {win : WinTree.Id} {ev : Ev} {held : List WinTree.Id}
+    (h : Good held st) (hw : Alive st.tree win) : SafeO (keySteal rec st win ev) (fun p => Good held p.1) := by
+  unfold keySteal
+  apply SafeO.lbind (safeR_get hw)
+  intro w ⟨hww, hwf⟩
+  cases hc : w.children.head? with
+  | none => exact h
+  | some fc =>
+    simp only
+    have hmem : fc ∈ w.children := List.mem_of_head? hc
+    obtain ⟨cw, hcw, hcf, _⟩ := h.1.tree.child win fc w hww hwf hmem
+    apply SafeO.lbind (safeR_get ⟨cw, hcw, hcf⟩)
+    intro fw _
+    split
+    · exact hrec st fc ev held h ⟨cw, hcw, hcf⟩
+    · exact h
+
+theorem keyFocus_safe {rec : KeyRec} (hrec : KeyRecSafe rec) {st : St} {win : WinTree.Id} {ev : Ev} {held : List WinTree.Id}
+    (h : Good held st) (hw : Alive st.tree win) : SafeO (keyFocus rec st win ev) (fun p => Good held p.1) := by
+  unfold keyFocus
+  apply SafeO.lbind (safeR_get hw)
+  intro w ⟨hww, hwf⟩
+  cases hc : w.focusedChild with
+  | none => exact h
+  | some fc =>
+    simp only
+    have hmem := h.1.tree.focus win fc w hww hwf hc
+    obtain ⟨cw, hcw, hcf, _⟩ := h.1.tree.child win fc w hww hwf hmem
+    exact hrec st fc ev held h ⟨cw, hcw, hcf⟩
+
+theorem ownVisible_safe {t : Tree} (hi : TInv t) {win : WinTree.Id} (hw : Alive t win) :
+    SafeR (ownVisible Cfg.repaired t win) (fun _ => True) := by
+  unfold ownVisible
+  simp only [Cfg.repaired, if_true]
+  exact isShown_safe hi _ win hw
+
+theorem keyOwn_safe {st : St} {win : WinTree.Id} {ev : Ev} {held : List WinTree.Id} (h : Good held st)
+    (hw : Alive st.tree win) : SafeO (keyOwn Cfg.repaired st win ev) (fun p => Good held p.1) := by
+  unfold keyOwn
+  apply SafeO.lbind (ownVisible_safe h.1.tree hw)
+  intro own _
+  split
+  · exact SafeO.lift (runHandlers_safe .key win ev st held h)
+  · exact h
+
+theorem keySnap_safe {rec : KeyRec} (hrec : KeyRecSafe rec) (win : WinTree.Id) (ev : Ev) (held : List WinTree.Id)
+    (hwin : win ∈ held) : ∀ (cs : List WinTree.Id) (st : St), Good held st → (∀ c ∈ cs, c ∈ held) →
+    SafeO (keySnap rec st win cs ev) (fun p => Good held p.1) := by
+  intro cs
+  induction cs with
+  | nil => intro st h _; exact h
+  | cons c rest ih =>
+    intro st h hsub
+    have hrest : ∀ c' ∈ rest, c' ∈ held := fun c' hc' => hsub c' (List.mem_cons_of_mem _ hc')
+    simp only [keySnap]
+    have hca : Alive st.tree c := h.1.held c (hsub c (List.mem_cons_self ..))
+    apply SafeO.lbind (safeR_get hca)
+    intro cw _
+    split
+    · exact ih st h hrest
+    · apply SafeO.lbind (safeR_get (h.1.held win hwin))
+      intro w _
+      split
+      · exact ih st h hrest
+      · apply SafeO.bind (hrec st c ev held h hca)
+        intro ⟨st1, d1⟩ h1
+        cases d1 with
+        | true => exact h1
+        | false => exact ih st1 h1 hrest
+
+theorem keyChildren_safe {rec : KeyRec} (hrec : KeyRecSafe rec) {fuel : Nat} {st : St} {win : WinTree.Id} {ev : Ev}
+    {held : List WinTree.Id} (h : Good held st) (hwin : win ∈ held) :
+    SafeO (keyChildren Cfg.repaired rec fuel st win ev) (fun p => Good held p.1) := by
+  unfold keyChildren
+  apply SafeO.lbind (safeR_get (h.1.held win hwin))
+  intro w ⟨hww, hwf⟩
+  simp only [Cfg.repaired, if_true]
+  have hal : ∀ c ∈ w.children, Alive st.tree c := by
+    intro c hc
+    obtain ⟨cw, hcw, hcf, _⟩ := h.1.tree.child win c w hww hwf hc
+    exact ⟨cw, hcw, hcf⟩
+  apply SafeO.lbind (refAll_safe w.children st held h hal)
+  intro st4 h4
+  apply SafeO.bind (keySnap_safe hrec win ev (w.children ++ held) (List.mem_append_right _ hwin) w.children st4 h4
+    (fun c hc => List.mem_append_left _ hc))
+  intro ⟨st5, d5⟩ h5
+  apply SafeO.lbind (unrefAll_safe w.children st5 held h5)
+  intro st6 h6
+  exact h6
+
+theorem handleKeyBody_safe {rec : KeyRec} (hrec : KeyRecSafe rec) (fuel : Nat) :
+    KeyRecSafe (handleKeyBody Cfg.repaired rec fuel) := by
+  intro st win ev held h hw
+  unfold handleKeyBody
+  have hvis : SafeR (entryVisible Cfg.repaired st.tree win) (fun _ => True) := by
+    unfold entryVisible
+    simp only [Cfg.repaired, if_true]
+    exact isShown_safe h.1.tree _ win hw
+  apply SafeO.lbind hvis
+  intro vis _
+  split
+  · exact h
+  · obtain ⟨st1, e1, h1, hb⟩ := h.1.ref hw
+    rw [e1]
+    simp only [lift_ok, out_bind_ok]
+    have g1 : Good (win :: held) st1 := ⟨h1, by rw [hb]; exact h.2⟩
+    have hmem : win ∈ win :: held := List.mem_cons_self ..
+    have alive : ∀ st', Good (win :: held) st' → Alive st'.tree win := fun st' g => g.1.held win hmem
+    apply SafeO.bind (Q := fun p => Good (win :: held) p.1)
+    · refine firstClaim_safe (keySteal_safe hrec g1 (alive _ g1)) fun stA gA => ?_
+      refine firstClaim_safe (keyFocus_safe hrec gA (alive _ gA)) fun stB gB => ?_
+      refine firstClaim_safe (keyOwn_safe gB (alive _ gB)) fun stC gC => ?_
+      exact keyChildren_safe hrec gC hmem
+    · intro ⟨st5, d5⟩ g5
+      unfold keyDone
+      apply SafeO.lbind g5.1.release
+      intro st6 ⟨h6, hb6⟩
+      exact ⟨h6, by rw [hb6]; exact g5.2⟩
+
+/-- `_handle_key` (repaired code): whatever the (covered) handlers do, no undefined behaviour, and the application
+    invariant is kept — for every fuel. -/
+theorem handleKey_safe : ∀ (f : Nat), KeyRecSafe (handleKey Cfg.repaired f) := by
+  intro f
+  induction f with
+  | zero => intro st c ev held _ _; trivial
+  | succ f ih => exact handleKeyBody_safe ih f
+
 end WinInput
 end Tickit
